@@ -674,11 +674,17 @@ func init() {
 		return Ite(Lt(tm(a[0]), tm(a[1])), TInt64(-1), Ite(Gt(tm(a[0]), tm(a[1])), TInt64(1), TInt64(0)))
 	})
 	reg("(time.Time).IsZero", func(p *Path, _ *frame, a []Value, _ token.Pos) Value { return Eq(tm(a[0]), zeroTimeNS) })
-	reg("(time.Time).Sub", func(p *Path, _ *frame, a []Value, _ token.Pos) Value { return satDuration(Sub(tm(a[0]), tm(a[1]))) })
+	reg("(time.Time).Sub", func(p *Path, _ *frame, a []Value, _ token.Pos) Value {
+		d := Sub(tm(a[0]), tm(a[1]))
+		if p.proves(And(Ge(d, TInt(minInt64)), Le(d, TInt(maxInt64)))) {
+			return d
+		}
+		return satDuration(d)
+	})
 	reg("(time.Time).Add", func(p *Path, _ *frame, a []Value, _ token.Pos) Value { return TimeV{Add(tm(a[0]), a[1].(*Term))} })
 	reg("(time.Time).Unix", func(p *Path, _ *frame, a []Value, _ token.Pos) Value { return floorDivC(tm(a[0]), tNsSec) })
 	reg("(time.Time).UnixMilli", func(p *Path, _ *frame, a []Value, _ token.Pos) Value { return floorDivC(tm(a[0]), tNsMs) })
-	reg("(time.Time).UnixNano", func(p *Path, _ *frame, a []Value, _ token.Pos) Value { return wrapInt(tm(a[0]), types.Typ[types.Int64]) })
+	reg("(time.Time).UnixNano", func(p *Path, _ *frame, a []Value, _ token.Pos) Value { return p.wrap(tm(a[0]), types.Typ[types.Int64]) })
 	reg("(time.Time).Nanosecond", func(p *Path, _ *frame, a []Value, _ token.Pos) Value { return Mod(tm(a[0]), tNsSec) })
 	idT := func(p *Path, _ *frame, a []Value, _ token.Pos) Value { return a[0] }
 	regs([]string{"(time.Time).UTC", "(time.Time).Local", "(time.Time).Round", "(time.Time).In"}, idT)
